@@ -70,13 +70,16 @@ Theorem C14_enum_len_stable : forall bs n, EnumScanner.enum_len bs = (EnumScanne
 Proof. exact EnumProofs.enum_len_stable. Qed.
 Print Assumptions C14_enum_len_stable.
 
-(* after the fix a0479cf a slash after the array that begins neither // nor /* ends the rule: Len of
-   "[1, 2]" LF "/cats" is 6 (and Len of those 6 bytes is 6); a slash at the very end of the text is
-   still the unfinished opener (ErrUnexpectedEOF at the slash) *)
+(* after the fixes a0479cf and 3cd814f a slash after the array that does not begin // or /* ends the
+   rule, also when it is the last byte of the text: Len of "[1, 2]" LF "/cats" is 6 (and Len of those
+   6 bytes is 6), Len of "[1] /" is 3; inside the array ("[1,/") a slash at the very end is still the
+   unfinished opener (ErrUnexpectedEOF at the slash), as it is for Check everywhere *)
 Example C14_enum_len_slash_examples :
   EnumScanner.enum_len [x5b; x31; x2c; x20; x32; x5d; x0a; x2f; x63; x61; x74; x73] = (EnumScanner.VOk, 6%N) /\
   EnumScanner.enum_len (firstn 6 [x5b; x31; x2c; x20; x32; x5d; x0a; x2f; x63; x61; x74; x73]) = (EnumScanner.VOk, 6%N) /\
-  EnumScanner.enum_len [x5b; x31; x5d; x20; x2f] = (EnumScanner.VErr EnumScanner.code_unexpected_eof 4%N, 0%N).
+  EnumScanner.enum_len [x5b; x31; x5d; x20; x2f] = (EnumScanner.VOk, 3%N) /\
+  EnumScanner.enum_len [x5b; x31; x2c; x2f] = (EnumScanner.VErr EnumScanner.code_unexpected_eof 3%N, 0%N) /\
+  EnumScanner.enum_check [x5b; x31; x5d; x20; x2f] = EnumScanner.VErr EnumScanner.code_unexpected_eof 4%N.
 Proof. vm_compute. repeat split; reflexivity. Qed.
 
 (* Property C14 for Schema.Len (model SchemaScanner.schema_len, after the fixes 555884d and c67ddfe).
@@ -221,7 +224,7 @@ Proof. exact SchemaLenProofs.schema_len_after_annotation_object. Qed.
    (proof by symbolic execution of the model in SchemaScan/SchemaLenProofs.v); and the examples
    "{}" LF "/abc/" = 2, "{"id": 1}" LF LF "/cats/{id}" = 9, "[1, 2]" LF "// x" = 6 (annotations are banned
    after a non-empty array, so after the line break every slash ends the schema), "[1, 2] // x" =
-   error 304 at 7, "1 /" = error 303 at 2 *)
+   error 304 at 7, "1 /" = 1 (fix 3cd814f; it was error 303 at 2) *)
 Theorem C14_schema_len_foreign_slash : forall x (rest : Wire.bytes),
   SchemaScanner.ch x 47 = false -> SchemaScanner.ch x 42 = false ->
   SchemaScanner.schema_len (x7b :: x7d :: x0a :: x2f :: x :: rest) = SchemaScanner.VLen 2.
@@ -233,7 +236,7 @@ Example C14_schema_len_trailer_with_slash :
   SchemaScanner.schema_len (SchemaLenProofs.bytes_of [123; 34; 105; 100; 34; 58; 32; 49; 125; 10; 10; 47; 99; 97; 116; 115; 47; 123; 105; 100; 125]%N) = SchemaScanner.VLen 9 /\
   SchemaScanner.schema_len (SchemaLenProofs.bytes_of [91; 49; 44; 32; 50; 93; 10; 47; 47; 32; 120]%N) = SchemaScanner.VLen 6 /\
   SchemaScanner.schema_len (SchemaLenProofs.bytes_of [91; 49; 44; 32; 50; 93; 32; 47; 47; 32; 120]%N) = SchemaScanner.VErr 304 7 /\
-  SchemaScanner.schema_len (SchemaLenProofs.bytes_of [49; 32; 47]%N) = SchemaScanner.VErr 303 2.
+  SchemaScanner.schema_len (SchemaLenProofs.bytes_of [49; 32; 47]%N) = SchemaScanner.VLen 1.
 Proof. exact SchemaLenProofs.schema_len_trailer_with_slash. Qed.
 
 (* CRLF layout (fix 542fa4b) and a ### comment opened after the text of an inline annotation
@@ -260,3 +263,36 @@ Example C14_schema_annotation_then_block_comment :
     SchemaScanner.scan false SchemaLenProofs.annotation_then_block_comment /\
   SchemaScanner.schema_len SchemaLenProofs.annotation_then_block_comment = SchemaScanner.VLen 18.
 Proof. exact SchemaLenProofs.annotation_then_block_comment_scan. Qed.
+
+(* A text of annotations only has no schema (fix 2bf15a3): "Len returns an error when the text does not
+   begin with a schema".  [SchemaLenProofs.nothing_found bs] in C14_schema_len_error_iff /
+   C14_schema_len_value_iff now means: no value begins outside an annotation among the events Length()
+   requests (SchemaLenProofs.no_example), OR the computed prefix holds nothing but blanks. *)
+Theorem C14_schema_len_needs_example : forall (bs : Wire.bytes) n,
+  SchemaScanner.schema_len bs = SchemaScanner.VLen n ->
+  SchemaScanner.has_example 0
+    (SchemaScanner.upto_end_top (SchemaScanner.drop_leading_newlines (fst (SchemaScanner.scan true bs)))) = true.
+Proof. exact SchemaLenProofs.schema_len_needs_example. Qed.
+Print Assumptions C14_schema_len_needs_example.
+
+Theorem C14_schema_len_no_example : forall bs : Wire.bytes, SchemaLenProofs.no_example bs = true ->
+  (forall n, SchemaScanner.schema_len bs <> SchemaScanner.VLen n) /\
+  ((SchemaLenProofs.has_endtop (fst (SchemaScanner.scan true bs)) = true \/
+    snd (SchemaScanner.scan true bs) = SchemaScanner.Done) ->
+   SchemaScanner.schema_len bs = SchemaScanner.VErr SchemaScanner.code_empty_schema 0).
+Proof. exact SchemaLenProofs.schema_len_no_example. Qed.
+Print Assumptions C14_schema_len_no_example.
+
+(* "// x" ; "/* x */" ; "// x" LF "1" ; "{}" LF "/" ; "1 // {min: 0}" LF "/" ; "[1] /" (was 304 at 4) ; "1 /" *)
+Example C14_schema_len_annotations_only :
+  SchemaScanner.schema_len (SchemaLenProofs.bytes_of [47; 47; 32; 120]%N) = SchemaScanner.VErr 202 0 /\
+  SchemaScanner.schema_len (SchemaLenProofs.bytes_of [47; 42; 32; 120; 32; 42; 47]%N) = SchemaScanner.VErr 202 0 /\
+  SchemaScanner.schema_len (SchemaLenProofs.bytes_of [47; 47; 32; 120; 10; 49]%N) = SchemaScanner.VLen 6 /\
+  SchemaScanner.schema_len (SchemaLenProofs.bytes_of [123; 125; 10; 47]%N) = SchemaScanner.VLen 2 /\
+  SchemaScanner.schema_len (SchemaLenProofs.bytes_of [49; 32; 47; 47; 32; 123; 109; 105; 110; 58; 32; 48; 125; 10; 47]%N) = SchemaScanner.VLen 13 /\
+  SchemaScanner.schema_len (SchemaLenProofs.bytes_of [91; 49; 93; 32; 47]%N) = SchemaScanner.VLen 3 /\
+  snd (SchemaScanner.scan true (SchemaLenProofs.bytes_of [49; 32; 47]%N)) = SchemaScanner.Done /\
+  snd (SchemaScanner.scan false (SchemaLenProofs.bytes_of [49; 32; 47]%N)) = SchemaScanner.Err 303 2 /\
+  SchemaScanner.schema_len (SchemaLenProofs.bytes_of [47]%N) = SchemaScanner.VErr 303 0 /\
+  snd (SchemaScanner.scan true (SchemaLenProofs.bytes_of [32; 47]%N)) = SchemaScanner.Err 303 1.
+Proof. exact SchemaLenProofs.schema_len_annotations_only. Qed.
